@@ -212,6 +212,9 @@ pub fn gen_plan(seed: u64, prof: &Profile) -> Plan {
         (r.usize(1, 4), r.usize(1, 12), r.usize(0, 4), r.usize(0, 2))
     };
 
+    // one run in forty has no feature at all (only parser errors, or nothing)
+    let n_feat = if !wide && r.chance(1, 40) { 0 } else { n_feat };
+
     // ---- features
     let mut features = Vec::new();
     let mut budget = max_sc;
